@@ -107,6 +107,14 @@ def _norm_index(k, n):
     if isinstance(k, SBV): return k.as_int()
     return k
 
+def _wrap_signed(k, n):
+    """a machine integer of a SIGNED dtype used as a scalar index (a data value indexing a table): numpy / numba wrap a negative index once (A2).
+    Loop counters and generic indices are mathematical integers and are left alone."""
+    if isinstance(k, SBV) and k.signed:
+        z = k.as_int().z; zs = z3.simplify(z >= 0)
+        if z3.is_true(zs): return k
+        return mk_int(z3.If(z < 0, z + zi(n), z))
+    return k
 def as_index_scalar(x):
     if isinstance(x, SBV): return mk_int(x.as_int().z)
     if isinstance(x, (SBool, bool, _rnp.bool_)): raise IndexError('boolean scalar index')
@@ -221,7 +229,7 @@ class ndarray:
                 _, a, s0, st0 = d
                 vd.append(('ax', a, s0 + st0 * start if not (isinstance(start, int) and start == 0) else s0, st0 * step)); shape.append(length)
             else:
-                k = _norm_index(as_index_scalar(k), n)
+                k = _norm_index(as_index_scalar(_wrap_signed(k, n)), n)
                 if BOUNDS_HOOK[0] is not None: BOUNDS_HOOK[0](k, n, 'getitem')
                 if d[0] == 'new': continue
                 _, a, s0, st0 = d
